@@ -303,15 +303,16 @@ where
     /// Panics if `key` is the reserved 0 handle, or if the table has to grow and the allocation fails
     pub fn entry(&'_ mut self, key: Handle) -> Entry<'_, T> {
         assert!(key.0 != 0, "0 keys mean unintialized entries");
-        if !self.contains(key) && (self.count + 1) as f32 > self.capacity as f32 * MAX_LOAD {
-            // a vacant entry is about to be handed out: keep the load factor below 1, otherwise
-            // probing for an absent handle would never terminate
-            self.grow().expect("Failed to grow the table");
-        }
-        let ind = self.find_ind(key);
+        let mut ind = self.find_ind(key);
 
         let pl = unsafe {
             if *self.handles.as_ptr().add(ind) != key {
+                // a vacant entry is handed out: keep the load factor below 1, otherwise probing
+                // for an absent handle would never terminate
+                if (self.count + 1) as f32 > self.capacity as f32 * MAX_LOAD {
+                    self.grow().expect("Failed to grow the table");
+                    ind = self.find_ind(key);
+                }
                 EntryPayload::Vacant {
                     key: &mut *self.handles.as_ptr().add(ind),
                     value: &mut *(self.values.as_ptr().add(ind) as *mut MaybeUninit<T>),
